@@ -638,7 +638,7 @@ class Desugarer:
                     B._defs = None
                     return True
                 continue
-            kind = _is(callee, DIRECT_CALLS)
+            kind = _is(callee, DIRECT_CALLS) or _is(t.get('decl', ''), DIRECT_CALLS)
             if kind and t['args']:
                 clos = self.closure_of(B, t['args'][0])
                 if clos and self.should_expand(clos[0], kind, B.j):
@@ -729,7 +729,8 @@ def split_switch_operands(j):
                     sym.pop(l, None)
                 elif rv['k'] == 'use' and rv['op'].get('k') in ('copy', 'move') and not rv['op']['place']['p'] \
                         and rv['op']['place']['l'] in sym:
-                    sym[l] = sym[rv['op']['place']['l']]
+                    s0 = sym[rv['op']['place']['l']]
+                    sym[l] = s0[:3] + (s0[3] or ndefs.get(l, 0) > 1,)
                 elif rv['k'] in ('use', 'un', 'bin', 'cast', 'discr') and l not in user:
                     sym[l] = ('stmt', si, l, ndefs.get(l, 0) > 1)
                 else:
